@@ -126,22 +126,41 @@ def rule_table(rep: Report, rid="C19.table") -> None:
         ok_sep = False
         if len(sep) == 1 and sep[0][1] is False:
             c = sep[0][0]
+
             def deep(t, seen=()):
                 for x in nf.subterms(t):
                     yield x
                     if x[0] == "ref" and x not in seen and isinstance(I.obj(x), HList):
-                        for sg in I.obj(x).segs:
-                            if sg[0] in ("e", "s"):
-                                yield from deep(sg[1], seen + (x,))
+                        for sg in nf.list_content(I, x, m.tree):
+                            yield from deep_seg(sg, seen + (x,))
+
+            def deep_seg(sg, seen):
+                if sg[0] in ("e", "s"):
+                    yield from deep(sg[1], seen)
+                elif sg[0] == "loop":
+                    info = I.loops.get(sg[1], {})
+                    for cc in info.get("conds") or ():
+                        yield from deep(cc, seen)
+                    if info.get("iter") is not None:
+                        yield from deep(info["iter"], seen)
+                    for s2 in sg[2]:
+                        yield from deep_seg(s2, seen)
+                elif sg[0] == "if":
+                    yield from deep(sg[1], seen)
+                    for s2 in sg[2] + sg[3]:
+                        yield from deep_seg(s2, seen)
             allt = list(deep(c))
-            pats = [t for t in allt if t[0] == "lambda" and "re.match" in t[1]]
-            if c[0] == "cmp" and c[1] == "Gt" and is_const(c[3], 0) and pats:
-                try:
-                    lam = ast.parse(pats[0][1], mode="eval").body
-                    p0 = lam.body.args[0].value
-                    ok_sep = regexnf.same(p0, 0, r"^:?-+:?$") and ("prop", "table_cells", line) in allt
-                except Exception:
-                    ok_sep = False
+            pats = []
+            for t in allt:
+                if t[0] == "lambda" and "re.match" in t[1]:
+                    try:
+                        lam = ast.parse(t[1], mode="eval").body
+                        pats.append(lam.body.args[0].value)
+                    except Exception:
+                        pass
+                if t[0] == "call" and t[1] in ("re.match", "re.fullmatch") and t[2] and is_const(t[2][0]):
+                    pats.append(t[2][0][1])
+            ok_sep = bool(pats) and all(regexnf.same(p0, 0, r"^:?-+:?$") for p0 in pats) and ("prop", "table_cells", line) in allt
         rep.ob(rid, "a GFM separator row (any cell of the form :?-+:?) is not a table row", ok_sep, **kw, expected="if any cell matches ^:?-+:?$: return False",
                found=[(fmt(c, I)[:120], p) for c, p in sep])
         rep.eq(rid, "a Markdown table row reports kind TableRow with the line's cells", [const("TableRow"), ("prop", "table_cells", line)], [sn[1].get("matched_type"), sn[1].get("items")], **kw)
@@ -176,7 +195,9 @@ def rule_tags(rep: Report, rid="C19.tags") -> None:
         rep.ob(rid, "tags are the backtick-quoted '@' words of the line, each with the column of its own '@' (indent + match start + 2)", ok, **kw,
                expected="for m in re.finditer('`(@[^`]+)`', line): {'column': indent + m.start() + 2, 'text': m.group(1)}", found=found)
         gs = nf.guards_in_ctx(ctx)
-        rep.ob(rid, "a line is a tag line iff it has at least one such tag", len(gs) == 1 and gs[0][0][0] == "cmp" and gs[0][0][2] == ("call", "len", (items,), ()), **kw,
+        from ..frame import truthy_forms
+        okg = len(gs) == 1 and any(nf.norm_guard(f_, True) == gs[0] for f_ in truthy_forms(items))
+        rep.ob(rid, "a line is a tag line iff it has at least one such tag", okg, **kw,
                expected="len(tags) > 0", found=[(fmt(c, I), p) for c, p in gs])
 
 
